@@ -439,6 +439,7 @@ func (r *runner) collect(nsh int) (sum Summary, distinct int) {
 	sum.Maxes = map[string]float64{}
 	cells := map[string]bool{}
 	hashes := map[uint64]struct{}{}
+	begun := 0
 	for k := 0; k < nsh; k++ {
 		logp := filepath.Join(r.o.WorkDir, fmt.Sprintf("shard.%d.log", k))
 		f, err := os.Open(logp)
@@ -449,7 +450,9 @@ func (r *runner) collect(nsh int) (sum Summary, distinct int) {
 		sc.Buffer(make([]byte, 1<<20), 1<<28)
 		for sc.Scan() {
 			l := sc.Text()
-			if strings.HasPrefix(l, "R ") {
+			if strings.HasPrefix(l, "B ") {
+				begun++
+			} else if strings.HasPrefix(l, "R ") {
 				rest := l[2:]
 				sp := strings.IndexByte(rest, ' ')
 				idx, _ := strconv.Atoi(rest[:sp])
@@ -461,7 +464,6 @@ func (r *runner) collect(nsh int) (sum Summary, distinct int) {
 				var s Summary
 				if json.Unmarshal([]byte(l[2:]), &s) == nil {
 					sum.Evals += s.Evals
-					sum.Cases += s.Cases
 					sum.Skips += s.Skips
 					for n, v := range s.Obs {
 						sum.Obs[n] += v
@@ -495,6 +497,7 @@ func (r *runner) collect(nsh int) (sum Summary, distinct int) {
 		sum.Cells = append(sum.Cells, c)
 	}
 	sort.Strings(sum.Cells)
+	sum.Cases = begun
 	return sum, len(hashes)
 }
 
@@ -610,17 +613,9 @@ func (r *runner) finish(nsh int, wall time.Duration) int {
 		}
 	}
 	if sum.Cases < r.n {
-		// every case must have been run or attributed to a suspect
-		attributed := 0
-		for _, x := range r.res {
-			if x.Index >= 0 {
-				attributed++
-			}
-		}
-		if sum.Cases+attributed < r.n {
-			r.res = append(r.res, located{Result{Verdict: "inconclusive", Key: "cases-missing",
-				Msg: fmt.Sprintf("%d of %d cases accounted for", sum.Cases+attributed, r.n)}, -1, 0})
-		}
+		// every case of the list must have been begun (a case that killed its worker is begun and attributed to a suspect)
+		r.res = append(r.res, located{Result{Verdict: "inconclusive", Key: "cases-missing",
+			Msg: fmt.Sprintf("%d of %d cases were begun", sum.Cases, r.n)}, -1, 0})
 	}
 
 	findings := loadFindings(r.o.VerifDir)
